@@ -7,6 +7,7 @@ transpositions) x index spellings {contiguous, sparse increasing, omitted for si
 receives exactly the values (every array in index order); sparse spellings under strict_arrays end in a client
 fault; object_to_simple_dict o simple_dict_to_object is the identity; a single primitive return value is the
 body, out-header fields are HTTP headers."""
+import decimal
 import itertools
 import json
 
@@ -127,6 +128,7 @@ def shards(tier):
         out.append({'kind': 'B', 'n': n, 'lo': k, 'hi': min(len(shp), k + per), 'tier': tier})
     out.append({'kind': 'ret', 'tier': tier})
     out.append({'kind': 'flat', 'tier': tier})
+    out.append({'kind': 'methods', 'tier': tier})
     return out
 
 
@@ -174,13 +176,13 @@ def single_member_arrays_only(v):
     return True
 
 
-def run_get(h, m, args, query, expect_fault, ctx, res, site):
+def run_get(h, m, args, query, expect_fault, ctx, res, site, mname='m'):
     def V(kind, detail, what):
         res['violations'].append({'sig': 'C03|%s|%s|%s%s' % (kind, h.label, site, ('|' + detail) if detail else ''),
                                   'what': '[%s validator=%s] %s; query=%s' % (h.label, h.validator, what, query[:500]),
                                   'case': ctx, 'count': 1})
-    o = h.get('m', query, None)
-    calls = h.captured('m')
+    o = h.get(mname, query, None)
+    calls = h.captured(mname)
     if o.escaped is not None:
         V('escape', '%s@%s' % (type(o.escaped).__name__, o.escaped_where), 'exception escaped the WSGI callable: %r' % (o.escaped,))
         return 'escape'
@@ -200,6 +202,48 @@ def run_get(h, m, args, query, expect_fault, ctx, res, site):
         V('args', '', 'sent %r, function received %r' % (args, calls[0][1]))
         return 'args'
     return 'ok'
+
+
+def methods_program():
+    """several methods whose parameters and members have the same names with different types: what a flat key means is
+    decided by the method that is called, not by the key"""
+    P = {'n': 'P', 'fields': [['x', I], ['tags', ['a', I, {}]]]}
+    Q = {'n': 'Q', 'fields': [['x', U], ['tags', ['a', U, {}]]]}
+    ms = [{'n': 'user', 'args': [['id', I], ['p', ['c', 'P', {}]]], 'ret': I},
+          {'n': 'order', 'args': [['id', U], ['p', ['c', 'Q', {}]]], 'ret': I},
+          {'n': 'item', 'args': [['id', ['p', 'Decimal', {}]], ['p', ['a', ['c', 'P', {}], {}]]], 'ret': I}]
+    vals = {'user': [7, Obj('P', x=8, tags=[9, 10])], 'order': ['007', Obj('Q', x='008', tags=['09', '1e1'])],
+            'item': [decimal.Decimal('7.50'), [Obj('P', x=1, tags=[2]), Obj('P', x=3, tags=None)]]}
+    return {'tns': TNS, 'classes': [P, Q], 'services': [{'n': 'S', 'methods': ms}]}, vals
+
+
+def run_methods(shard, res, only=None):
+    program, vals = methods_program()
+    names = sorted(vals)
+    depth = 3
+    for cfg in configs(shard['tier']):
+        for hist in itertools.product(names, repeat=depth):
+            key = [cfg, list(hist)]
+            if only is not None and only != key:
+                continue
+            h = harness.HttpHarness(program, **cfg)
+            res['evaluations'] += 1
+            good = True
+            for step, mname in enumerate(hist):
+                m = h.b.methods[mname]
+                pairs = []
+                for (an, at), v in zip(m['args'], vals[mname]):
+                    pairs += httpcodec.flatten(h.b, an, at, v, delim=cfg['hier_delim'])
+                ctx = {'methods': True, 'shard': shard, 'only': key}
+                oc = run_get(h, m, vals[mname], httpcodec.query_string(pairs), False, ctx, res,
+                             'methods|%s-after-%s' % (mname, '+'.join(sorted(set(hist[:step]))) or 'nothing'), mname=mname)
+                if oc != 'ok':
+                    good = False
+                    break
+            res['outcomes']['method-history'] = res['outcomes'].get('method-history', 0) + 1
+            if good:
+                res['nontrivial'] += 1
+    res['cov']['programs'] += 1
 
 
 def do_program(program, arg_cases, res, tier, site, sample_key, shard=None):
@@ -298,6 +342,8 @@ def run_shard(shard):
             vals = universe.shape_assignments(program, root, 12 if tier == 'quick' else 60)
             from vf.props.c01 import shape_sig
             do_program(program, [('v%d' % i, [v, 7]) for i, v in enumerate(vals)], res, tier, 'B', shape_sig(shape), shard)
+    elif shard['kind'] == 'methods':
+        run_methods(shard, res)
     elif shard['kind'] == 'ret':
         for aid, at, vals in ret_cases(tier):
             program = {'tns': TNS, 'classes': [{'n': 'H', 'fields': [['hx', I], ['hs', U], ['hd', ['p', 'DateTime', {}]], ['hb', ['p', 'Boolean', {}]]]}],
@@ -385,6 +431,9 @@ def run_shard(shard):
 
 def replay(case):
     res = {'evaluations': 0, 'nontrivial': 0, 'outcomes': {}, 'violations': [], 'samples': [], 'cov': {'programs': 0}, 'notes': {}}
+    if case.get('methods'):
+        run_methods(case['shard'], res, only=case['only'])
+        return res['violations']
     if case.get('ret') or case.get('flat'):
         r = run_shard({'kind': 'ret' if case.get('ret') else 'flat', 'tier': 'thorough'})
         return r['violations']
